@@ -1279,6 +1279,9 @@ func (e *specEnv) evalCall(n *ast.CallExpr) (sval, error) {
 		if _, ran := e.frame.env[c]; !ran {
 			return sval{v: x.freshVal(e.s, "notcalled", av.Type()), typ: av.Type()}, nil
 		}
+		if given, have := e.frame.callArgs[c]; have && k < len(given) {
+			return sval{v: given[k], typ: av.Type()}, nil // as it was when the call was made
+		}
 		if v, have := e.frame.env[av]; have {
 			return sval{v: v, typ: av.Type()}, nil
 		}
@@ -1321,11 +1324,25 @@ func (e *specEnv) evalCall(n *ast.CallExpr) (sval, error) {
 			return sval{v: scalar(TFalse), typ: boolT}, nil
 		}
 		rt := calls[idx].Call.Signature().Results()
-		if rt.Len() != 1 {
-			return sval{}, fmt.Errorf("retval(%s): not a single-result function", id.Name)
+		ri := 0
+		if len(n.Args) == 3 { // retval(f, i, k): the k-th result of a multi-result function
+			if l3, ok3 := n.Args[2].(*ast.BasicLit); ok3 {
+				ri, _ = strconv.Atoi(l3.Value)
+			}
+		} else if rt.Len() != 1 {
+			return sval{}, fmt.Errorf("retval(%s): not a single-result function (use retval(f, i, k))", id.Name)
+		}
+		if ri >= rt.Len() {
+			return sval{}, fmt.Errorf("retval(%s, %d, %d): no such result", id.Name, idx, ri)
 		}
 		if !ran {
-			return sval{v: x.freshVal(e.s, "notcalled", rt.At(0).Type()), typ: rt.At(0).Type()}, nil
+			return sval{v: x.freshVal(e.s, "notcalled", rt.At(ri).Type()), typ: rt.At(ri).Type()}, nil
+		}
+		if rt.Len() > 1 {
+			if v.K != vTuple || ri >= len(v.Parts) {
+				return sval{}, fmt.Errorf("retval(%s): result is not a tuple on this path", id.Name)
+			}
+			return sval{v: v.Parts[ri], typ: rt.At(ri).Type()}, nil
 		}
 		return sval{v: v, typ: rt.At(0).Type()}, nil
 	case "rangeidx": // rangeidx(K): byte offset of the next rune of the range-over-string loop K
